@@ -284,20 +284,32 @@ func Mux(s *MuxSpec) ([]byte, error) {
 }
 
 // DrawMuxSpec draws a seeded file specification.
-func DrawMuxSpec(t *sim.Tape) (*MuxSpec, error) {
+func DrawMuxSpec(t *sim.Tape) (*MuxSpec, error) { return DrawMuxSpecOpt(t, false) }
+
+// DrawMuxSpecOpt: with av set the file has exactly one video track with an stss box and at most one
+// audio track (what the segmenter example supports: one output name per media type).
+func DrawMuxSpecOpt(t *sim.Tape, av bool) (*MuxSpec, error) {
 	rnd := t.Sub()
 	s := &MuxSpec{MovieTS: []uint32{1000, 600, 90000}[t.Draw(3)], MdatFirst: t.Bool(), LargeMdat: t.Chance(250)}
 	if t.Chance(200) {
 		s.FreeAfter = 8 + t.Draw(40)
 	}
 	nTracks := 1 + t.Draw(3)
+	videoAt := 0
+	if av {
+		nTracks = 1 + t.Draw(2)
+		videoAt = t.Draw(nTracks)
+	}
 	for i := 0; i < nTracks; i++ {
 		tr := MuxTrack{ID: uint32(i + 1), Co64: t.Chance(300), CttsVer: -1}
 		video := t.Draw(3) != 2
+		if av {
+			video = i == videoAt
+		}
 		if video {
 			tr.Handler = "vide"
 			tr.Timescale = []uint32{90000, 12800, 25, 30000}[t.Draw(4)]
-			tr.Stss = !t.Chance(200)
+			tr.Stss = av || !t.Chance(200)
 			tr.Sdtp = t.Chance(300)
 			if t.Chance(600) {
 				tr.CttsVer = t.Draw(2)
